@@ -194,7 +194,7 @@ def _valid(hyps, goal, timeout_ms):
     return str(r), None
 
 
-def sample_flow(d, cond_idx, container, n=2):
+def sample_flow(d, cond_idx, container, n=2, history=False):
     """the real sample(n, conditions) on stub marginals and a symbolic RNG: dataflow clauses.
     cond_idx is an ordered tuple: the order in which the caller lists the conditions."""
     cols = NAMES[:d]
@@ -213,11 +213,17 @@ def sample_flow(d, cond_idx, container, n=2):
             conds = pd.Series(objarr([vals[c] for c in ccols]), index=ccols)
         before = copy.copy(conds) if container == 'dict' else conds.copy()
         with gm.gm_patches(rng=rng):
+            if history:
+                # an earlier request on the same instance, same columns, other values: the call under test must not depend on it
+                prev = {c: SymReal(z3.Real(f'xprev_{c}')) for c in ccols}
+                m.sample(n, conditions=dict(prev) if container == 'dict' else pd.Series(objarr([prev[c] for c in ccols]), index=ccols))
+                del rng.requests[:]
             out = m.sample(n, conditions=conds)
             # reference: what _get_conditional_distribution returns for the documented normal scores
             zs = pd.Series(objarr([SymReal(gm.PHIINV(tz(gm.s_min(gm.s_max(SymReal(gm.FJ(z3.IntVal(cols.index(c)), vals[c].t)), float(EPSILON)), 1 - float(EPSILON)))))
                                    for c in ccols]), index=ccols)
-            mu_ref, sg_ref, c_ref = m._get_conditional_distribution(zs)
+            # (on a fresh model object: the reference must not see any state the first request left behind)
+            mu_ref, sg_ref, c_ref = gm.fitted_model(cols, df, [])._get_conditional_distribution(zs)
         return {'out': out, 'req': list(rng.requests), 'log': log, 'conds': conds, 'before': before,
                 'ref': (np.asarray(mu_ref, dtype=object), np.asarray(sg_ref, dtype=object), list(c_ref))}
     with gm.gm_patches():
@@ -285,7 +291,7 @@ def task(a):
     try:
         if a[0] == 'dist':
             return (a, cond_dist(a[1], a[2], a[3]), time.time() - t0)
-        return (a, sample_flow(a[1], a[2], a[3]), time.time() - t0)
+        return (a, sample_flow(a[1], a[2], a[3], history=(a[0] == 'flow2')), time.time() - t0)
     except BaseException:
         import traceback
         return (a, [('harness error ' + traceback.format_exc()[-1200:], 'error', None, 0.0)], 0.0)
@@ -305,18 +311,37 @@ def _real_model(d, seed=0):
 
 
 def concrete_violation(d, cond_idx, container):
+    """value sets: inside the training range; far above it (marginal cdf rounds to exactly 1: the EPSILON clip decides);
+    far below it (cdf underflows to 0)"""
+    for shift in (None, 9.0, -40.0):
+        bad, detail = _concrete_violation(d, cond_idx, container, shift)
+        if bad:
+            return bad, detail
+    return False, ''
+
+
+def _concrete_violation(d, cond_idx, container, shift):
     m, data = _real_model(d)
     cols = NAMES[:d]
     ccols = [cols[i] for i in cond_idx]
-    vals = {c: float(data[c].iloc[3]) + 0.25 for c in ccols}
+    if shift is None:
+        vals = {c: float(data[c].iloc[3]) + 0.25 for c in ccols}
+    else:
+        vals = {c: float(data[c].mean() + (shift if k == 0 else 0.3) * data[c].std()) for k, c in enumerate(ccols)}
+    # an earlier request on the same instance and columns with other values must not influence this one
+    try:
+        prev = {c: float(data[c].iloc[9]) - 0.4 for c in ccols}
+        m.sample(2, conditions=dict(prev) if container == 'dict' else pd.Series(prev))
+    except Exception as e:
+        return True, f'sample(2, conditions={container} on {ccols}) raises {type(e).__name__}: {e}'
     conds = dict(vals) if container == 'dict' else pd.Series(vals)
     before = copy.deepcopy(conds)
     try:
         out = m.sample(4, conditions=conds)
     except Exception as e:
         return True, f'sample(4, conditions={container} on {ccols}) raises {type(e).__name__}: {e}'
-    if list(out.columns) != cols or len(out) != 4 or out.isna().any().any():
-        return True, f'schema: {list(out.columns)} rows={len(out)}'
+    if list(out.columns) != cols or len(out) != 4 or out.isna().any().any() or not np.all(np.isfinite(out.to_numpy(dtype=float))):
+        return True, f'conditions {vals}: schema/NaN/inf in the output: {list(out.columns)} rows={len(out)} values {out.to_numpy()[0].tolist()}'
     for c in ccols:
         if not np.allclose(out[c].to_numpy(), vals[c]):
             return True, f'conditioned column {c} not fixed: {out[c].to_numpy()} vs {vals[c]}'
@@ -379,15 +404,17 @@ def run(tier, seed):
         for cs in [(0,), (d - 1,)] + ([(0, 2), (2, 0), (2, 1)] if d == 3 else []) + ([(3, 1), (2, 3, 0)] if d == 4 else []):
             for cont in ('dict', 'Series'):
                 jobs.append(('flow', d, cs, cont))
+    for d, cs, cont in ((2, (0,), 'dict'), (3, (0, 2), 'Series'), (3, (1,), 'dict')) + (((4, (3, 1), 'dict'),) if tier != 'quick' else ()):
+        jobs.append(('flow2', d, cs, cont))
     for a, res, secs in pool_map(task, jobs):
         for (name, st, model, s_) in res:
-            nm = f"{a[0]} d={a[1]} cond={[NAMES[i] for i in a[2]]}: {name}"
+            nm = f"{'flow after an earlier request on the same columns' if a[0] == 'flow2' else a[0]} d={a[1]} cond={[NAMES[i] for i in a[2]]}: {name}"
             ck.ob(nm, st if st in ('unsat', 'sat', 'unknown') else 'error', s_ or 0.0)
             if st == 'unsat':
                 continue
-            cont = a[3] if a[0] == 'flow' else 'dict'
+            cont = a[3] if a[0].startswith('flow') else 'dict'
             done = False
-            for c2 in ([cont] if a[0] == 'flow' else ['dict', 'Series']):
+            for c2 in ([cont] if a[0].startswith('flow') else ['dict', 'Series']):
                 try:
                     bad, detail = concrete_violation(a[1], list(a[2]), c2)
                 except Exception as e:
